@@ -1,5 +1,7 @@
 //! C18 — parsing is deterministic, stateless across calls and thread-safe.
 
+use std::collections::HashMap;
+
 use cooklang::CooklangParser;
 use proptest::prelude::*;
 use proptest::strategy::ValueTree;
@@ -656,6 +658,243 @@ fn repetition_part(run: &mut Run, reps: usize) {
     }
 }
 
+
+// ---------------------------------------------------------------------------
+// sibling converters: parsers that differ in the converter only
+
+const SIBLING_LAYERS: [&str; 7] = [
+    "",
+    "[extend.units]\nmin = { aliases = [\"minuto\", \"minutos\"] }\n",
+    "[extend.units]\nh = { aliases = [\"hora\", \"horas\"] }\ng = { aliases = [\"gramo\"] }\n",
+    "[[quantity]]\nquantity = \"time\"\nunits = [{ names = [\"fortnight\", \"fortnights\"], symbols = [\"fn\"], ratio = 1209600 }]\n",
+    "[[quantity]]\nquantity = \"mass\"\nunits = [{ names = [\"minutos\"], symbols = [\"mns\"], ratio = 2 }]\n",
+    "[[quantity]]\nquantity = \"time\"\nunits = [{ names = [\"gramo\"], symbols = [\"xyz\"], ratio = 7 }]\n",
+    "[extend.units]\nkg = { aliases = [\"hora\", \"minuto\"] }\n",
+];
+const SIBLING_UNITS: [&str; 18] = ["min", "minutos", "minuto", "hora", "horas", "h", "fortnight", "fn", "gramo", "g", "kg", "s", "xyz", "mns", "cup", "minutes", "Min", "nope"];
+
+fn sibling_parsers() -> &'static Vec<[CooklangParser; 2]> {
+    static P: std::sync::OnceLock<Vec<[CooklangParser; 2]>> = std::sync::OnceLock::new();
+    P.get_or_init(|| {
+        SIBLING_LAYERS
+            .iter()
+            .map(|layer| {
+                let mut b = cooklang::Converter::builder().with_units_file(cooklang::convert::UnitsFile::bundled()).expect("bundled units");
+                if !layer.is_empty() {
+                    b = b.with_units_file(toml::from_str(layer).expect("sibling layer parses")).expect("sibling layer is accepted");
+                }
+                let c = b.finish().expect("sibling converter builds");
+                [CooklangParser::new(cooklang::Extensions::all(), c.clone()), CooklangParser::new(cooklang::Extensions::all() - cooklang::Extensions::ADVANCED_UNITS, c)]
+            })
+            .collect()
+    })
+}
+
+/// (kind, value, unit): kind 0 `~{v%U}`, 1 `~t{v%U}`, 2 `@x{v%U}`, 3 `#pot{v}` + text
+#[derive(Debug, Clone, Serialize, Deserialize)]
+pub struct SiblingHistory {
+    pub inputs: Vec<Vec<(u8, u16, u8)>>,
+    /// (converter, without ADVANCED_UNITS, input)
+    pub calls: Vec<(u8, bool, u8)>,
+}
+
+fn sibling_text(items: &[(u8, u16, u8)]) -> String {
+    let mut s = String::new();
+    for (k, v, u) in items {
+        let unit = SIBLING_UNITS[*u as usize % SIBLING_UNITS.len()];
+        match k % 4 {
+            0 => s.push_str(&format!("Wait ~{{{v}%{unit}}} then ")),
+            1 => s.push_str(&format!("rest ~t{{{v}%{unit}}} and ")),
+            2 => s.push_str(&format!("add @x{{{v}%{unit}}}, ")),
+            _ => s.push_str(&format!("in a #pot{{{v}}} for {v} {unit} ")),
+        }
+    }
+    s.push_str("done.\n");
+    s
+}
+
+fn check_siblings(h: &SiblingHistory, st: &mut Stats) -> Verdict {
+    let parsers = sibling_parsers();
+    let srcs: Vec<String> = h.inputs.iter().map(|i| sibling_text(i)).collect();
+    let mut first: HashMap<(usize, bool, usize), String> = HashMap::new();
+    let mut kinds = std::collections::HashSet::new();
+    for (c, lenient, i) in &h.calls {
+        let (c, i) = (*c as usize % parsers.len(), *i as usize % srcs.len());
+        let p = &parsers[c][*lenient as usize];
+        let src = &srcs[i];
+        let (img, msgs) = match guard(|| {
+            let r = p.parse(src);
+            let msgs: Vec<String> = r.report().iter().map(|d| d.message.to_string()).filter(|m| m.starts_with("Unknown timer unit") || m.starts_with("Timer unit is not time")).collect();
+            (full_image(p, src), msgs)
+        }) {
+            Ok(x) => x,
+            Err(e) => vbail!("c18.panic.sibling", "parse panicked: {e}; input {src:?}"),
+        };
+        // what this parser's own converter says about every timer unit of the input
+        let mut expected = vec![];
+        if !*lenient {
+            for (k, _, u) in &h.inputs[i] {
+                if k % 4 > 1 {
+                    continue;
+                }
+                let unit = SIBLING_UNITS[*u as usize % SIBLING_UNITS.len()];
+                match p.converter().find_unit(unit) {
+                    None => expected.push(format!("Unknown timer unit: {unit}")),
+                    Some(u) if u.physical_quantity != cooklang::convert::PhysicalQuantity::Time => expected.push(format!("Timer unit is not time: {u}")),
+                    Some(_) => {}
+                }
+            }
+        }
+        vensure!(
+            msgs == expected,
+            "c18.depends-on-other-converter",
+            "timer-unit diagnostics {msgs:?}, but this parser's own converter (bundled + layer {:?}) gives {expected:?}\n input {src:?}\n calls {:?}",
+            SIBLING_LAYERS[c], h.calls
+        );
+        kinds.insert(c);
+        match first.get(&(c, *lenient, i)) {
+            None => {
+                first.insert((c, *lenient, i), img);
+            }
+            Some(prev) => vensure!(
+                *prev == img,
+                "c18.depends-on-history",
+                "the same parser gives another result for the same input after parsers with other converters were used\n first {}\n now   {}\n input {src:?}\n calls {:?}",
+                truncate(prev, 1200), truncate(&img, 1200), h.calls
+            ),
+        }
+    }
+    st.class_if(first.len() < h.calls.len(), "history repeats a (parser, input) pair");
+    if kinds.len() > 1 {
+        st.nontrivial(&format!("{:?}", h));
+    }
+    Ok(())
+}
+
+// ---------------------------------------------------------------------------
+// observers: a tracing subscriber is not an input of the parse
+
+struct Recorder {
+    max: tracing::Level,
+    next: std::sync::atomic::AtomicU64,
+    seen: std::sync::atomic::AtomicU64,
+}
+
+struct FieldSink<'a>(&'a std::sync::atomic::AtomicU64);
+
+impl tracing::field::Visit for FieldSink<'_> {
+    fn record_debug(&mut self, _field: &tracing::field::Field, value: &dyn std::fmt::Debug) {
+        // formats the value: a side effect inside a field expression or a Debug impl would run here
+        self.0.fetch_add(format!("{value:?}").len() as u64 + 1, std::sync::atomic::Ordering::Relaxed);
+    }
+}
+
+impl tracing::Subscriber for Recorder {
+    fn enabled(&self, m: &tracing::Metadata<'_>) -> bool {
+        *m.level() <= self.max
+    }
+    fn new_span(&self, a: &tracing::span::Attributes<'_>) -> tracing::span::Id {
+        a.record(&mut FieldSink(&self.seen));
+        tracing::span::Id::from_u64(self.next.fetch_add(1, std::sync::atomic::Ordering::Relaxed) + 1)
+    }
+    fn record(&self, _: &tracing::span::Id, v: &tracing::span::Record<'_>) {
+        v.record(&mut FieldSink(&self.seen));
+    }
+    fn record_follows_from(&self, _: &tracing::span::Id, _: &tracing::span::Id) {}
+    fn event(&self, e: &tracing::Event<'_>) {
+        e.record(&mut FieldSink(&self.seen));
+    }
+    fn enter(&self, _: &tracing::span::Id) {}
+    fn exit(&self, _: &tracing::span::Id) {}
+}
+
+fn observed_image(max: tracing::Level, with_options: bool, p: &CooklangParser, src: &str) -> (String, u64) {
+    let rec = std::sync::Arc::new(Recorder { max, next: Default::default(), seen: Default::default() });
+    let d = tracing::Dispatch::from(RecorderHandle(rec.clone()));
+    let img = tracing::dispatcher::with_default(&d, || image_in_mode(p, src, with_options));
+    (img, rec.seen.load(std::sync::atomic::Ordering::Relaxed))
+}
+
+struct RecorderHandle(std::sync::Arc<Recorder>);
+
+impl tracing::Subscriber for RecorderHandle {
+    fn enabled(&self, m: &tracing::Metadata<'_>) -> bool {
+        self.0.enabled(m)
+    }
+    fn new_span(&self, a: &tracing::span::Attributes<'_>) -> tracing::span::Id {
+        self.0.new_span(a)
+    }
+    fn record(&self, i: &tracing::span::Id, v: &tracing::span::Record<'_>) {
+        self.0.record(i, v)
+    }
+    fn record_follows_from(&self, a: &tracing::span::Id, b: &tracing::span::Id) {
+        self.0.record_follows_from(a, b)
+    }
+    fn event(&self, e: &tracing::Event<'_>) {
+        self.0.event(e)
+    }
+    fn enter(&self, i: &tracing::span::Id) {
+        self.0.enter(i)
+    }
+    fn exit(&self, i: &tracing::span::Id) {
+        self.0.exit(i)
+    }
+}
+
+const OBSERVER_LEVELS: [tracing::Level; 5] = [tracing::Level::TRACE, tracing::Level::DEBUG, tracing::Level::INFO, tracing::Level::WARN, tracing::Level::ERROR];
+
+fn check_observed(c: &InputCase, st: Option<&mut Stats>) -> Verdict {
+    let src = c.input();
+    let p = CooklangParser::new(ALL_EXTS[c.ext], converter(c.conv).clone());
+    let mut saw = 0;
+    for with_options in [false, true] {
+        let Ok(plain) = guard(|| image_in_mode(&p, &src, with_options)) else { return Ok(()) };
+        for level in OBSERVER_LEVELS {
+            let (img, seen) = match guard(|| observed_image(level, with_options, &p, &src)) {
+                Ok(x) => x,
+                Err(e) => vbail!("c18.panic.observed", "parse panicked while a {level} tracing subscriber was listening (it does not without): {e}\n input {src:?}"),
+            };
+            saw += seen;
+            vensure!(
+                img == plain,
+                "c18.depends-on-observer",
+                "the result changes while a tracing subscriber (max level {level}) is listening\n without {}\n with    {}\n input {src:?}",
+                truncate(&plain, 1200), truncate(&img, 1200)
+            );
+        }
+        let again = guard(|| image_in_mode(&p, &src, with_options)).unwrap_or_default();
+        vensure!(again == plain, "c18.depends-on-history", "the result after parses observed by a tracing subscriber differs from the one before\n before {}\n after  {}\n input {src:?}", truncate(&plain, 1200), truncate(&again, 1200));
+    }
+    if let Some(st) = st {
+        st.eval();
+        st.class_if(saw > 0, "the subscriber received spans or events");
+        if saw > 0 {
+            st.nontrivial(&(src, c.ext, c.conv));
+        }
+    }
+    Ok(())
+}
+
+fn observers_part(run: &mut Run, n: usize) {
+    let mut b = batch(run.seed ^ 0x0b5e, n);
+    for f in ["@a{1%kg} @&a{1/0} @{} ~{5} #{} @&(9)a{} @b{1%%}", ">> [mode]: nope\n@a{1 1/2%cups} ~{x%min} @&(=~1)a{}\n= s\n@a|b|c{}\n", "---\ntime: x\nservings: [\n---\n@a{}"] {
+        b.push(InputCase { pieces: vec![f.to_string()], ext: EXT_ALL, conv: 1 });
+    }
+    let mut st = Stats::default();
+    let mut fail = None;
+    for c in &b {
+        if let Err(v) = check_observed(c, Some(&mut st)) {
+            fail = Some((v, serde_json::to_value(c).unwrap()));
+            break;
+        }
+    }
+    st.sample(|| b[0].describe());
+    run.add_part("observers", "every input of a batch (plus documents with many parser errors) parsed plain, then while a thread-scoped tracing subscriber is listening at max level TRACE, DEBUG, INFO, WARN, ERROR (it formats every field it is given), then plain again - through parse / parse_metadata and the *_with_options entry points: all images must be equal (a subscriber is not an input of the parse); non-trivial = the subscriber received something", st, false);
+    if let Some((v, case)) = fail {
+        run.fail("observers", v, case);
+    }
+}
+
 fn processes_part(run: &mut Run, n: usize) {
     let mut st = Stats::default();
     let exe = std::env::current_exe().expect("current exe");
@@ -694,6 +933,8 @@ pub fn run(tier: Tier) -> i32 {
     run.assume("thread interleavings are whatever the OS produces: schedules are sampled, not enumerated (DESIGN section 7)");
     run.replay_regressions(&|part, j| match part {
         "histories" => check_history(&case_from(j)?, &mut Stats::default()),
+        "sibling-converters" => check_siblings(&case_from(j)?, &mut Stats::default()),
+        "observers" => check_observed(&case_from(j)?, None),
         _ => {
             let c: InputCase = case_from(j)?;
             let a = full_image(parser(c.ext, c.conv), &c.input());
@@ -766,6 +1007,28 @@ pub fn run(tier: Tier) -> i32 {
         fresh_race_part(&mut run, tier.pick(300, 6000) as usize, 8);
     }
     if !run.failed() {
+        observers_part(&mut run, tier.pick(600, 20000) as usize);
+    }
+    if !run.failed() {
+        run_prop(
+            &mut run,
+            "sibling-converters",
+            "histories over 14 parsers that differ in the converter only (bundled units alone; + an [extend] layer giving a time unit Spanish aliases - same unit count; + aliases on other units; + one more time unit; + a mass unit called `minutos`; + a time unit called `gramo`; + a mass unit aliased `hora`; each with and without ADVANCED_UNITS): 1-4 inputs of timers, named timers, ingredients and inline quantities with units from an 18-word pool, 3-16 calls in a generated order; the timer-unit diagnostics of every call must be exactly what that parser's own converter says about the units (find_unit), and every image must equal the first image of the same (parser, input); non-trivial = the history uses at least two converters; distinct = distinct history",
+            || {
+                (
+                    proptest::collection::vec(proptest::collection::vec((0u8..4, 0u16..400, 0u8..SIBLING_UNITS.len() as u8), 1..=4), 1..=4),
+                    proptest::collection::vec((0u8..SIBLING_LAYERS.len() as u8, proptest::bool::weighted(0.15), 0u8..4), 3..=16),
+                )
+                    .prop_map(|(inputs, calls)| SiblingHistory { inputs, calls })
+            },
+            tier.pick(6_000, 300_000),
+            |h: &SiblingHistory, st| {
+                st.sample(|| json!({"inputs": h.inputs.iter().map(|i| sibling_text(i)).collect::<Vec<_>>(), "calls": h.calls}));
+                check_siblings(h, st)
+            },
+        );
+    }
+    if !run.failed() {
         processes_part(&mut run, tier.pick(300, 6000) as usize);
     }
     // last: a poisoned lock inside the FFI would break every later call in this process
@@ -779,6 +1042,8 @@ pub fn replay(part: &str, j: &serde_json::Value) -> Verdict {
     match part {
         "histories" => check_history(&case_from(j)?, &mut Stats::default()),
         "processes" => Err(Violation::new("c18.process-result-differs", "re-run ./check C18 quick with the recorded VERIF_SEED")),
+        "sibling-converters" => check_siblings(&case_from(j)?, &mut Stats::default()),
+        "observers" => check_observed(&case_from(j)?, None),
         "ffi-histories" => {
             let src = j.get("source").and_then(|s| s.as_str()).unwrap_or("").to_string();
             let f = j.get("factor").and_then(|f| f.as_f64()).unwrap_or(1.0);
